@@ -12,7 +12,7 @@ from pathlib import Path
 
 from . import exprs, kernels
 from .catalogue import BROADCAST_TARGET, CATALOGUE
-from .common import WORK, Timer, dump, dyadic, seed, source_hash, tier, undyadic
+from .common import WORK, Timer, dump, dyadic, machinery_hash, seed, source_hash, tier, undyadic
 from .native import Pool
 from .tlc import MachineryError, run_tlc, workdir
 
@@ -114,7 +114,7 @@ class Result(dict):
 
 
 def cache_path(t: str, s: int) -> Path:
-    return WORK / "cache" / source_hash() / t / f"pipeline-{s}.json"
+    return WORK / "cache" / (source_hash() + "-" + machinery_hash()) / t / f"pipeline-{s}.json"
 
 
 def run(t: str | None = None, s: int | None = None, *, use_cache: bool = True) -> Result:
@@ -173,6 +173,61 @@ def _run(t: str, s: int) -> Result:
     if len(ra.lines) != len(cases):
         raise MachineryError(f"machine stage: {len(ra.lines)} verdicts for {len(cases)} cases")
     lines = {l["case"]: l for l in ra.lines}
+    states_gen = trans_gen = 0
+
+    # ---- stage A2: for a few small kernels TLC itself chooses the stored subset of every input (all 2^cells patterns) --
+    gen_cases, gen_expected = [], 0
+    order = list(range(len(kernel_list)))
+    rng.shuffle(order)
+    GEN_VALUES = [1, 0, 2, 3, -1, 0.5, 4, 2]
+    for ki in order:
+        if len(gen_cases) >= P["gen_kernels"]:
+            break
+        k, cap, group = kernel_list[ki]
+        if group in ("broadcast-target", "big-literal"):
+            continue
+        fu = exprs.first_use(k.asg)
+        cls = exprs.index_classes(k.asg)
+        dims = {i: 2 for i in cls}
+        def ncells(dm):
+            return sum(len(kernels.cells_of([dm[i] for i in fu[nm]])) for nm in fu)
+        for i in sorted(dims, reverse=True):
+            if ncells(dims) <= 8:
+                break
+            for j in dims:
+                if cls[j] == cls[i]:
+                    dims[j] = 1
+        if ncells(dims) > 8 or ncells(dims) == 0:
+            continue
+        gen = {}
+        for nm in fu:
+            cells = kernels.cells_of([dims[i] for i in fu[nm]])
+            gen[nm] = {"cells": [list(c) for c in cells], "vals": [dyadic(GEN_VALUES[j % len(GEN_VALUES)]) for j in range(len(cells))]}
+        gid = len(gen_cases) + 1
+        c = kernels.base_case(k, gid, [dims], [{}], [{"op": "load", "val": 0, "dims": 1},
+                                                      {"op": "run", "prog": k.progs["evaluate"], "track": False},
+                                                      {"op": "snap", "vals": True}], "single")
+        c["gen"] = dict(gen, _={"cells": [], "vals": []})
+        c["_kernel"] = ki
+        c["_dims"] = dims
+        gen_cases.append(c)
+        gen_expected += 2 ** ncells(dims)
+    if gen_cases:
+        dump([{k_: v_ for k_, v_ in c.items() if not k_.startswith("_")} for c in gen_cases], d / "gen.json")
+        rg = run_tlc("KernelRun", "KernelRun.cfg", env={"VF_PROGS": d / "progs.json", "VF_CASES": d / "gen.json"})
+        if len(rg.lines) != gen_expected:
+            raise MachineryError(f"machine stage (TLC-chosen inputs): {len(rg.lines)} verdicts, {gen_expected} expected")
+        states_gen, trans_gen = rg.distinct, rg.generated
+        for l in rg.lines:
+            gc = gen_cases[l["case"] - 1]
+            k, cap, group = kernel_list[gc["_kernel"]]
+            cid = len(meta) + 1
+            while cid in meta:
+                cid += 1
+            l["case"] = cid
+            lines[cid] = l
+            meta[cid] = {"kernel": gc["_kernel"], "text": k.text, "formats": k.formats, "cap": cap, "group": group,
+                         "dims": gc["_dims"], "stage": "machine-gen"}
 
     # ---- stage B: replay every safe behaviour into the real back ends ---------------------------------------------
     INCONCLUSIVE = ("value-range", "unsupported-node")
@@ -351,7 +406,8 @@ def _run(t: str, s: int) -> Result:
         traces.append({"cid": cid, **m, "v": l["v"], "content": l["content"], "out": obs_cases[cid - 1]["obs"][0]})
     return Result(
         tier=t, seed=s, wall=timer.s(), kernels=len(kernel_list), programs=len(programs), skipped_requests=skipped,
-        states=ra.distinct + rc_states[0], transitions=ra.generated + rc_states[1], depth=ra.depth,
+        states=ra.distinct + rc_states[0] + states_gen, transitions=ra.generated + rc_states[1] + trans_gen, depth=ra.depth,
+        exhaustive_input_kernels=len(gen_cases), exhaustive_input_behaviours=gen_expected,
         coverage=ra.coverage, records=records, traces=traces, wide_bad=wide_bad,
         native_tasks=len(tasks), wide_tasks=len(wide_tasks),
     )
